@@ -159,27 +159,62 @@ static int expected_blocks(const eav_t *e)
  * next to the object under test and validate a fixed address before each of its validations: their outcomes must never change (state
  * leaking from one object into another), whatever is done to the object under test.  ASCII modes only: no IDN conversion, no back-end
  * context, so fault plans and adapter ledgers are not disturbed. */
-static eav_t *decoy[2];
-static int decoy_base[2][3];
-static unsigned decoy_msg[2];
-static const char *decoy_addr[2] = { "\"a\tb\"@x.zzzz", "user@mail.ru" };
+#define NDECOY 3
+static eav_t *decoy[NDECOY];
+static int decoy_base[NDECOY][3];
+static unsigned decoy_msg[NDECOY];
+/* C: mode 6531, an address that fails inside the IDN conversion with a code of its own (joiner without context): its message is read
+ * again *after* other objects have failed with other codes - a message buffer shared between objects shows */
+static const char *decoy_addr[NDECOY] = { "\"a\tb\"@x.zzzz", "user@mail.ru", "u@a\xe2\x80\x8d" "b.com" };
+static const char *decoy_held = NULL;  /* what eav_errstr returned for decoy C after its last validation */
+static int decoy_c_validated = 0;      /* decoy C has validated since its last set-up to mode 6531 */
 
 static unsigned dh(const char *s) { unsigned h = 2166136261u; if (!s) return 0; for (; *s; s++) h = (h ^ (unsigned char)*s) * 16777619u; return h; }
 
 static void decoys_check(const char *when)
 {
     int k;
+#ifdef VERIF_WRAP_IDN2
+    int saved_fresh = in_fresh;
+#endif
+#ifdef VERIF_IDN_ADAPTER
+    long saved_cd = verif_idn_fail_create_countdown;
+#endif
     if (getenv("VERIF_NO_DECOY")) return;
-    for (k = 0; k < 2; k++) {
+#ifdef VERIF_WRAP_IDN2
+    in_fresh = 1;                        /* the decoys are exempt from the fault plan, like the fresh reference object */
+#endif
+#ifdef VERIF_IDN_ADAPTER
+    verif_idn_fail_create_countdown = 0;
+#endif
+    for (k = 0; k < NDECOY; k++) {
         int ret, fresh = 0;
         if (!decoy[k]) {
             decoy[k] = malloc(sizeof *decoy[k]);
             eav_init(decoy[k]);
-            decoy[k]->rfc = k ? EAV_RFC_5322 : EAV_RFC_822;
+            decoy[k]->rfc = k == 2 ? EAV_RFC_6531 : k ? EAV_RFC_5322 : EAV_RFC_822;
             decoy[k]->tld_check = k ? true : false;
-            if (k) decoy[k]->allow_tld = 0;
+            if (k == 1) decoy[k]->allow_tld = 0;
             if (eav_setup(decoy[k]) != 0) { fprintf(stderr, "\nDRV-DECOY set-up failed\n"); exit(71); }
             fresh = 1;
+        }
+        else if (k == 2 && decoy_c_validated && decoy_held && dh(decoy_held) != decoy_msg[k]) {
+            /* the text behind the pointer eav_errstr returned for this object earlier (the object has not been touched since) */
+            fflush(stdout);
+            fprintf(stderr, "\nDRV-DECOY object-interference: the message obtained from a second object (mode 6531, %s) was overwritten %s: now '%s'\n",
+                    decoy_addr[k], when, decoy_held);
+            _exit(72);
+        }
+        else if (k == 2 && decoy_c_validated && dh(eav_errstr(decoy[k])) != decoy_msg[k]) {
+            fflush(stdout);
+            fprintf(stderr, "\nDRV-DECOY object-interference: the message of a second object's last validation (mode 6531, %s) changed %s: now '%s'\n",
+                    decoy_addr[k], when, eav_errstr(decoy[k]));
+            _exit(72);
+        }
+        else if ((decoy[k]->rfc = (k == 2 ? EAV_RFC_6531 : k ? EAV_RFC_5322 : EAV_RFC_822), eav_setup(decoy[k])) != 0) {       /* confirming the same mode again is always allowed; it also puts another object's
+                                                     * set-up between any two operations on the object under test */
+            fprintf(stderr, "\nDRV-DECOY object-interference: re-confirming the mode of a second object failed %s\n", when);
+            _exit(72);
         }
         ret = eav_is_email(decoy[k], decoy_addr[k], strlen(decoy_addr[k]));
         if (fresh) {
@@ -193,6 +228,32 @@ static void decoys_check(const char *when)
                     decoy_base[k][2], decoy[k]->result ? decoy[k]->result->rc : -9999, eav_errstr(decoy[k]));
             _exit(72);
         }
+        if (k == 2) { decoy_c_validated = 1; decoy_held = eav_errstr(decoy[k]); }
+    }
+#ifdef VERIF_WRAP_IDN2
+    in_fresh = saved_fresh;
+#endif
+#ifdef VERIF_IDN_ADAPTER
+    verif_idn_fail_create_countdown = saved_cd;
+#endif
+}
+
+/* at the end of a history decoy C leaves mode 6531 (its back-end context, if the back end has one, is released: the adapter's ledger
+ * of contexts is read in the end record) */
+static void decoys_park(void)
+{
+    if (decoy[2]) {
+#ifdef VERIF_IDN_ADAPTER
+        long saved_cd = verif_idn_fail_create_countdown;
+        verif_idn_fail_create_countdown = 0;
+#endif
+        decoy[2]->rfc = EAV_RFC_822;
+        (void)eav_setup(decoy[2]);
+        decoy_c_validated = 0;
+        decoy_held = NULL;
+#ifdef VERIF_IDN_ADAPTER
+        verif_idn_fail_create_countdown = saved_cd;
+#endif
     }
 }
 
@@ -222,6 +283,8 @@ static void run_history(char *line)
         case 'a': e->allow_tld = tok[1] == 'd' ? default_allow : (int)strtol(tok + 1, NULL, 16); printf("[\"a\"]"); break;
         case 's': {
             int rfc = (int)e->rfc, sr;
+            g_stage = "decoy";
+            decoys_check("right before another object's set-up");
             g_stage = "eav_setup";
             LIB(sr = eav_setup(e));
             if (rfc >= 0 && rfc <= 3 && sr == 0) confirmed = rfc;
@@ -246,6 +309,10 @@ static void run_history(char *line)
             fault_fired = 0;
 #endif
             LIB(ret = eav_is_email(e, pool[idx], pool_len[idx]));
+            {   /* every other validation: other objects work between the call and the first eav_errstr */
+                static unsigned between = 0;
+                if (between++ & 1) { g_stage = "decoy"; decoys_check("between another object's validation and its first eav_errstr"); }
+            }
             printf("[\"e\",%d,", idx);
             put_obs(e, ret);
             printf(",%ld,%d,", led_live - base_live, expected_blocks(e));
@@ -315,6 +382,7 @@ static void run_history(char *line)
     }
     g_stage = "eav_free";
     LIB(eav_free(e));
+    decoys_park();
     printf(",[\"end\",%ld,%ld,%ld,%ld", led_live - base_live, led_mallocs, led_frees, led_foreign_frees);
 #ifdef VERIF_IDN_ADAPTER
     printf(",%ld,%ld,%ld,%ld,%ld,%ld", verif_idn_creates, verif_idn_destroys, verif_idn_live, verif_idn_bad_use + verif_idn_bad_actions * 1000000L,
@@ -369,7 +437,7 @@ int main(void)
         else printf("null\n");
     }
     { int i; for (i = 0; i < pool_n; i++) free(pool[i]); free(pool); free(pool_len); }
-    { int k; for (k = 0; k < 2; k++) if (decoy[k]) { eav_free(decoy[k]); free(decoy[k]); } }
+    { int k; for (k = 0; k < NDECOY; k++) if (decoy[k]) { eav_free(decoy[k]); free(decoy[k]); } }
     free(line);
     return 0;
 }
